@@ -173,3 +173,102 @@ theorem c_build_mapping_entry (s : BitVec 64) (i j : Nat) (hi : i < 64) (hj : j 
 
 
 end GenC
+
+namespace GenC
+open Model
+
+theorem fold_set_toNat : ∀ (l : List Nat) (m : BitVec 64), (∀ x ∈ l, x < 64) →
+    (l.foldl (fun dag_mask x => set_bit dag_mask x) m).toNat = l.foldl setBit m.toNat := by
+  intro l
+  induction l with
+  | nil => intro m _; rfl
+  | cons x xs ih =>
+    intro m h
+    simp only [List.foldl_cons]
+    rw [ih _ (fun y hy => h y (by simp [hy])), set_bit_eq m x (h x (by simp))]
+
+theorem fold_masks_toNat : ∀ (l : List Nat) (a b : BitVec 64), (∀ x ∈ l, x < 64) →
+    ((l.foldl (fun (st : BitVec 64 × BitVec 64) x => (unset_bit st.1 x, set_bit st.2 x)) (a, b)).1.toNat =
+        l.foldl unsetBit a.toNat) ∧
+    ((l.foldl (fun (st : BitVec 64 × BitVec 64) x => (unset_bit st.1 x, set_bit st.2 x)) (a, b)).2.toNat =
+        l.foldl setBit b.toNat) := by
+  intro l
+  induction l with
+  | nil => intro a b _; exact ⟨rfl, rfl⟩
+  | cons x xs ih =>
+    intro a b h
+    simp only [List.foldl_cons]
+    have hx := h x (by simp)
+    obtain ⟨i1, i2⟩ := ih (unset_bit a x) (set_bit b x) (fun y hy => h y (by simp [hy]))
+    rw [i1, i2, unset_bit_eq a x hx, set_bit_eq b x hx]
+    exact ⟨rfl, rfl⟩
+
+theorem mme_masks_toNat (dag undag : List Nat) (hd : ∀ x ∈ dag, x < 64) (hu : ∀ x ∈ undag, x < 64) :
+    (mme_masks dag undag).1.toNat = dagMaskC dag undag ∧ (mme_masks dag undag).2.toNat = undagMask undag := by
+  unfold mme_masks dagMaskC undagMask
+  simp only []
+  obtain ⟨i1, i2⟩ := fold_masks_toNat undag (dag.foldl (fun dag_mask x => set_bit dag_mask x) 0#64) 0#64 hu
+  rw [i1, i2, fold_set_toNat dag 0#64 hd]
+  exact ⟨rfl, rfl⟩
+
+theorem fold_unset_step : ∀ (l : List Nat) (c : BitVec 64) (p : Nat), (∀ x ∈ l, x < 64) →
+    ((l.foldl (fun (st : BitVec 64 × Nat) x => (unset_bit st.1 x, st.2 + count_bits_above st.1 x)) (c, p)).1.toNat,
+     (l.foldl (fun (st : BitVec 64 × Nat) x => (unset_bit st.1 x, st.2 + count_bits_above st.1 x)) (c, p)).2) =
+      l.foldl (fun (cp : Nat × Nat) i => (unsetBit cp.1 i, cp.2 + countBitsAbove cp.1 i)) (c.toNat, p) := by
+  intro l
+  induction l with
+  | nil => intro c p _; rfl
+  | cons x xs ih =>
+    intro c p h
+    simp only [List.foldl_cons]
+    have hx := h x (by simp)
+    rw [ih _ _ (fun y hy => h y (by simp [hy])), unset_bit_eq c x hx, count_bits_above_eq c x hx]
+
+theorem fold_set_step : ∀ (l : List Nat) (c : BitVec 64) (p : Nat), (∀ x ∈ l, x < 64) →
+    ((l.foldl (fun (st : BitVec 64 × Nat) x => (set_bit st.1 x, st.2 + count_bits_above st.1 x)) (c, p)).1.toNat,
+     (l.foldl (fun (st : BitVec 64 × Nat) x => (set_bit st.1 x, st.2 + count_bits_above st.1 x)) (c, p)).2) =
+      l.foldl (fun (cp : Nat × Nat) i => (setBit cp.1 i, cp.2 + countBitsAbove cp.1 i)) (c.toNat, p) := by
+  intro l
+  induction l with
+  | nil => intro c p _; rfl
+  | cons x xs ih =>
+    intro c p h
+    simp only [List.foldl_cons]
+    have hx := h x (by simp)
+    rw [ih _ _ (fun y hy => h y (by simp [hy])), set_bit_eq c x hx, count_bits_above_eq c x hx]
+
+theorem beq_zero_iff (x : BitVec 64) : (x == 0#64) = decide (x.toNat = 0) := by
+  by_cases h : x = 0#64
+  · subst h; simp
+  · have : x.toNat ≠ 0 := fun e => h (BitVec.eq_of_toNat_eq (by simpa using e))
+    simp [h, this]
+
+/-- the C operator-string map kernel, as translated from fci_graph.c on every run, admits a string and computes its
+    target and parity exactly as the Model does (`makeMappingEachC`: masks, admission test, `mapEachStep`), for every
+    64-bit string and all index lists below 64 -/
+theorem c_mme_entry (s : BitVec 64) (dag undag : List Nat) (hd : ∀ x ∈ dag, x < 64) (hu : ∀ x ∈ undag, x < 64) :
+    (mme_entry s dag undag).map (fun r => (r.1.toNat, r.2)) =
+      (if (s.toNat &&& dagMaskC dag undag) = 0 ∧ ((s.toNat &&& undagMask undag) ^^^ undagMask undag) = 0 then
+        some ((mapEachStep dag undag s.toNat).1, (mapEachStep dag undag s.toNat).2 % 2) else none) := by
+  unfold mme_entry
+  simp only []
+  obtain ⟨m1, m2⟩ := mme_masks_toNat dag undag hd hu
+  rw [beq_zero_iff, beq_zero_iff]
+  simp only [BitVec.toNat_and, BitVec.toNat_xor, m1, m2]
+  by_cases h1 : (s.toNat &&& dagMaskC dag undag) = 0
+  · by_cases h2 : ((s.toNat &&& undagMask undag) ^^^ undagMask undag) = 0
+    · simp only [h1, h2, decide_true, Bool.and_self, if_true, and_self, Option.map_some]
+      have hur : ∀ x ∈ undag.reverse, x < 64 := fun x hx => hu x (by simpa using hx)
+      have hdr : ∀ x ∈ dag.reverse, x < 64 := fun x hx => hd x (by simpa using hx)
+      have e1 := fold_unset_step undag.reverse s 0 hur
+      generalize hA : undag.reverse.foldl (fun (st : BitVec 64 × Nat) x => (unset_bit st.1 x, st.2 + count_bits_above st.1 x)) (s, 0) = A at e1 ⊢
+      have e2 := fold_set_step dag.reverse A.1 A.2 hdr
+      unfold mapEachStep
+      rw [← e1]
+      simp only []
+      rw [← e2]
+    · simp [h1, h2]
+  · simp [h1]
+
+
+end GenC
